@@ -529,6 +529,10 @@ Section Dispatch.
     else if name =? "c16.range_subtrees" then
       option_map (fun '(ls, s, e) => t_hashes (range_subtrees H 200 ls s e))
         (run_parser (let* ls := plist pB in let* s := pN in let* e := pN in pret (ls, s, e)) args)
+    else if name =? "c16.rpv_verify" then
+      option_map (fun '(pr, lv, s, e, n, root) => [tbool (rpv_verify H pr lv s e n root)])
+        (run_parser (let* pr := plist pB in let* lv := plist pB in let* s := pN in let* e := pN in let* n := pN in let* root := pB in
+                     pret (pr, lv, s, e, n, root)) args)
     else if name =? "c16.verify_append" then
       option_map (fun '(n, th, sr, o, nw) => [tbool (verify_append H n th sr o nw)])
         (run_parser (let* n := pN in let* th := plist pB in let* sr := pB in let* o := pB in let* nw := pB in pret (n, th, sr, o, nw)) args)
